@@ -31,6 +31,14 @@ def codes_str(codes, salt=0) -> str:
     return "".join(out)
 
 
+def exc_class(e):
+    """Exception classes are matched with isinstance semantics against the classes the properties name."""
+    for cls in (ValueError, RuntimeError, AttributeError, TypeError):
+        if isinstance(e, cls):
+            return cls.__name__
+    return type(e).__name__
+
+
 def matching_read(call, is_last):
     op = call["op"]
     if op == "add_byte":
@@ -84,8 +92,8 @@ def do_read(r, call):
         if op == "next_chunk":
             r.next_chunk()
             return 0, ""
-    except Exception as e:  # class only, never the message
-        return 0, type(e).__name__
+    except Exception as e:  # class only, never the message; subclasses of the documented classes count as those
+        return 0, exc_class(e)
     raise ValueError(op)
 
 
@@ -99,7 +107,7 @@ def run_wire_trace(EoWriter, EoReader, calls, salt=0):
         try:
             do_write(w, c, salt)
         except Exception as e:
-            exc = type(e).__name__
+            exc = exc_class(e)
         c = {k: v for k, v in c.items() if not k.startswith("_")}
         ws.append({"call": c, "exc": exc, "after": list(w.to_bytearray()), "san": san})
     acc = [h["call"] for h in ws if h["exc"] == "" and h["call"]["op"] != "set_san"]
